@@ -415,3 +415,16 @@ PROPS["C17"]["level_text"] += (" Over whole histories (Props/C17Order): when no 
 PROPS["C05"]["harnesses"].append({"name": "walletconc", "pkg": "harness/walletconc", "race": True, "env": {"GORACE": "halt_on_error=1"},
                                   "crash_key": "data-race-or-fatal-error", "replayable": False,
                                   "quick": {"n": 6, "len": 10}, "thorough": {"n": 150, "len": 30}, "search": {"n": 40, "len": 20}})
+# collector side of C17: what a LocalCollector reports for a qualities task
+PROPS["C17"]["props"].append("MassVerif.Props.C17Collector")
+PROPS["C17"]["drivers_mod"].append("MassVerif.Driver.Collector")
+PROPS["C17"]["harnesses"].append({"name": "collector", "pkg": "harness/collector", "driver": "MassVerif/Driver/Collector.lean",
+                                  "quick": {"n": 80}, "thorough": {"n": 800}, "search": {"n": 400}, "replayable": False, "timeout": 600})
+PROPS["C17"]["level_text"] += (" Collector side (Model/Collector, Props/C17Collector): for any spaces, qualities, targets, ticks and "
+    "cancellations a local collector's reports for a qualities task name that task, list per slot exactly the error-free spaces whose "
+    "quality exceeds the slot's target (never an empty list), come in increasing slot order without repetition, cover every such slot "
+    "up to allowAhead (=10, regenerated fact) slots past the clock at each tick, and stop after a cancellation; the real LocalCollector "
+    "(scripted engine.v2 keeper and superior, real time, library qualities and difficulty targets) is diffed against the model, and its "
+    "proof/signature reports name the request's task and space.")
+PROPS["C17"]["assumptions"] = [a for a in PROPS["C17"]["assumptions"] if "trySlots" not in a] + [
+    "Model/Collector.lean transcribes LocalCollector.onRequestQualities/trySlots/reportQualities; a report still in flight when a newer qualities task arrives may be delivered (the code selects between the cancelled context and the hand-over): not excluded by the property, tolerated by the harness for 400 ms"]
